@@ -202,18 +202,20 @@ func newFramerH(r *rep.Report) *framerH {
 	}
 }
 
-// bufSizes: the read buffer sizes a stream is run with. Only buffers that
-// can hold every frame of the stream are used (a frame larger than the
-// caller's buffer is a different question).
+// bufSizes: the read buffer sizes a stream is run with: buffers that can hold
+// every frame of the stream and, for streams with a frame above 1600 bytes,
+// the 1600-byte buffer of the server's and the client's read loops as well
+// (the oversized frame is reported with its full length, truncated to the
+// buffer, and consumed whole: "a successful read consumes the bytes it returns").
 func bufSizes(st *stream) []int {
 	switch {
 	case st.maxFrame <= 1600:
 		return []int{1600, 65536}
 	case st.maxFrame <= 65536:
-		return []int{65536}
+		return []int{65536, 1600}
 	}
 
-	return []int{65600}
+	return []int{65600, 1600}
 }
 
 // runOne drives a fresh STUNConn over the stream delivered as the segments
@@ -299,12 +301,14 @@ func (h *framerH) runMode(st *stream, cuts []int, buf []byte, mode string) (sig,
 				return "phantom-frame:" + st.at(next), fmt.Sprintf("ReadFrom returned %d bytes after the last frame", got)
 			}
 			fe := st.ends[next]
-			if got == fe-pos && fe <= end && bytes.Equal(buf[:got], st.b[pos:fe]) {
+			m := min(got, len(buf))
+			// a frame larger than the caller's buffer is reported with its full length and as many of its bytes as fit;
+			// all of it is consumed: the frames behind it must come out whole and in step
+			if got == fe-pos && fe <= end && bytes.Equal(buf[:m], st.b[pos:pos+m]) {
 				pos, next = fe, next+1
 
 				continue
 			}
-			m := min(got, len(buf))
 			what := fmt.Sprintf("frame %d (%s) occupies offsets %d..%d (%d bytes); after %d delivered bytes ReadFrom returned n=%d: %s",
 				next, st.letters[next].Name, pos, fe, fe-pos, end, got, hexShort(buf[:m]))
 			switch {
